@@ -7,6 +7,8 @@ import (
 	"net"
 	"net/http"
 	"net/http/httputil"
+	"slices"
+	"strings"
 	"time"
 
 	"go.uber.org/zap"
@@ -99,6 +101,9 @@ func (p *HTTPProxy) ServeHTTPWithUpstream(
 		r = r.WithContext(ctx)
 	}
 
+	// Don't let the client declare Piko's own headers as hop-by-hop headers,
+	// otherwise the reverse proxy removes them from the forwarded request.
+	removeConnectionOptions(r.Header, "x-piko-forward", "x-piko-endpoint")
 	r.Header.Set("x-piko-forward", "true")
 
 	r = r.WithContext(context.WithValue(r.Context(), endpointContextKey, endpointID))
@@ -129,6 +134,31 @@ func (p *HTTPProxy) errorHandler(w http.ResponseWriter, _ *http.Request, err err
 		return
 	}
 	_ = errorResponse(w, http.StatusBadGateway, "upstream unreachable")
+}
+
+// removeConnectionOptions removes the given connection options (header field
+// names) from the Connection header.
+func removeConnectionOptions(h http.Header, options ...string) {
+	values := h.Values("Connection")
+	if len(values) == 0 {
+		return
+	}
+	var kept []string
+	for _, value := range values {
+		for _, option := range strings.Split(value, ",") {
+			option = strings.TrimSpace(option)
+			if option == "" || slices.ContainsFunc(options, func(o string) bool {
+				return strings.EqualFold(o, option)
+			}) {
+				continue
+			}
+			kept = append(kept, option)
+		}
+	}
+	h.Del("Connection")
+	if len(kept) > 0 {
+		h.Set("Connection", strings.Join(kept, ", "))
+	}
 }
 
 type errorMessage struct {
